@@ -25,6 +25,7 @@ CONSTANTS
   DEV_OversellAccepted,            \* defect #13b: selling more than held is accepted (position deleted, cash kept)
   DEV_BuyDepletesBeforeCashCheck,  \* defect #13c: buy rejected for lack of cash leaves the asks depleted
   DEV_LimitRejected,               \* defect #14 : limit orders raise TypeError (float -= Decimal)
+  DEV_UsdLimitRejected,            \* defect (fixed): a limit price given in USD raises TypeError (Decimal / float underlying)
   DEV_SettleStrictlyAfterExpiry    \* seeded (not in the code): ts > expiry instead of ts >= expiry
 
 TradeFeeRate    == QOf(3, 10000)
@@ -68,17 +69,20 @@ FirstWithPrice(lv, k) == \A j \in 1 .. (k - 1) : lv[j].p # lv[k].p
 Deplete(lv, fl) == [k \in DOMAIN lv |-> IF FirstWithPrice(lv, k) THEN [p |-> lv[k].p, s |-> QSub(lv[k].s, TakenAt(fl, lv[k].p))]
                                         ELSE lv[k]]
 
-(* levels an order may touch.  ev.mode: "mkt" | "lim" (ev.px = price) | "cap" (ev.px = multiple k of mark) *)
+(* levels an order may touch.  ev.mode: "mkt" | "lim" (ev.px = price in the market's token) | "limusd" (ev.px = price in USD: the limit
+   price is ev.px / underlying price of the instrument's row) | "cap" (ev.px = multiple k of mark) *)
+IsLim(ev) == ev.mode \in {"lim", "limusd"}
+LimTok(ev, und) == IF ev.mode = "limusd" /\ und # Zero THEN QDiv(ev.px, und) ELSE ev.px
 InCap(isBuy, p, mark, k) == IF isBuy THEN QLt(p, QMul(k, mark)) ELSE QGt(p, QDiv(mark, k))
 NearPrice(p, px) == QLt(QMul(QSub(One, LimitTol), px), p) /\ QLt(p, QMul(QAdd(One, LimitTol), px))
-Eligible(lv, mark, ev, isBuy) ==
+Eligible(lv, mark, und, ev, isBuy) ==
   CASE ev.mode = "mkt" -> lv
     [] ev.mode = "cap" -> SelectSeq(lv, LAMBDA l : InCap(isBuy, l.p, mark, ev.px))
-    [] ev.mode = "lim" -> LET m == SelectSeq(lv, LAMBDA l : NearPrice(l.p, ev.px)) IN IF m = <<>> THEN m ELSE <<m[1]>>
+    [] IsLim(ev) -> LET m == SelectSeq(lv, LAMBDA l : NearPrice(l.p, LimTok(ev, und))) IN IF m = <<>> THEN m ELSE <<m[1]>>
 
-Fills(lv, mark, ev, isBuy, amt) ==
-  LET el == Eligible(lv, mark, ev, isBuy) IN
-  IF ev.mode = "lim" THEN <<[p |-> el[1].p, a |-> amt]>> ELSE FillMkt(el, amt)
+Fills(lv, mark, und, ev, isBuy, amt) ==
+  LET el == Eligible(lv, mark, und, ev, isBuy) IN
+  IF IsLim(ev) THEN <<[p |-> el[1].p, a |-> amt]>> ELSE FillMkt(el, amt)
 
 -----------------------------------------------------------------------------
 (* derived views *)
@@ -117,17 +121,18 @@ Buy(st, ev) ==
   LET i   == ev.i
       row == st.book[i]
       amt == RoundStep(ev.amt)
-      el  == Eligible(row.asks, row.mark, ev, TRUE)
+      el  == Eligible(row.asks, row.mark, row.und, ev, TRUE)
   IN
   IF ~st.open THEN Reject(st, "closed")
   ELSE IF ~row.listed THEN Reject(st, "unlisted")
   ELSE IF ~row.live THEN Reject(st, "inactive")
   ELSE IF QLt(ev.amt, MinAmount) THEN Reject(st, "min_amount")
-  ELSE IF ev.mode = "lim" /\ el = <<>> THEN Reject(st, "no_level")
+  ELSE IF IsLim(ev) /\ el = <<>> THEN Reject(st, "no_level")
   ELSE IF QGt(amt, SumSizes(el)) THEN Reject(st, "depth")
   ELSE IF ev.mode = "lim" /\ DEV_LimitRejected THEN Reject(st, "DEV_type_error")
+  ELSE IF ev.mode = "limusd" /\ DEV_UsdLimitRejected THEN Reject(st, "DEV_type_error")
   ELSE
-    LET fl   == Fills(row.asks, row.mark, ev, TRUE, amt)
+    LET fl   == Fills(row.asks, row.mark, row.und, ev, TRUE, amt)
         prem == Premium(fl)
         fee  == TradeFee(amt, prem)
         cost == QAdd(prem, fee)
@@ -150,17 +155,18 @@ Sell(st, ev) ==
   LET i   == ev.i
       row == st.book[i]
       amt == RoundStep(ev.amt)
-      el  == Eligible(row.bids, row.mark, ev, FALSE)
+      el  == Eligible(row.bids, row.mark, row.und, ev, FALSE)
   IN
   IF ~st.open THEN Reject(st, "closed")
   ELSE IF ~row.listed THEN Reject(st, "unlisted")
   ELSE IF ~row.live THEN Reject(st, "inactive")
   ELSE IF QLt(ev.amt, MinAmount) THEN Reject(st, "min_amount")
-  ELSE IF ev.mode = "lim" /\ el = <<>> THEN Reject(st, "no_level")
+  ELSE IF IsLim(ev) /\ el = <<>> THEN Reject(st, "no_level")
   ELSE IF QGt(amt, SumSizes(el)) THEN Reject(st, "depth")
   ELSE IF ev.mode = "lim" /\ DEV_LimitRejected THEN Reject(st, "DEV_type_error")
+  ELSE IF ev.mode = "limusd" /\ DEV_UsdLimitRejected THEN Reject(st, "DEV_type_error")
   ELSE
-    LET fl   == Fills(row.bids, row.mark, ev, FALSE, amt)
+    LET fl   == Fills(row.bids, row.mark, row.und, ev, FALSE, amt)
         prem == Premium(fl)
         fee  == TradeFee(amt, prem)
         gain == QSub(prem, fee)
@@ -261,7 +267,7 @@ NonZero(lv) == SelectSeq(lv, LAMBDA l : l.s # Zero)
 (* market order: the fills are a prefix of the non-empty levels in book order, every level but the last one taken whole *)
 Act_C15_BestFirst(st, ev, r) ==
   (IsTrade(ev) /\ r.out = "ok" /\ ev.mode \in {"mkt", "cap"}) =>
-     LET nz == NonZero(Eligible(SideOf(st, ev), st.book[ev.i].mark, ev, ev.op = "buy"))  fl == r.fills IN
+     LET nz == NonZero(Eligible(SideOf(st, ev), st.book[ev.i].mark, st.book[ev.i].und, ev, ev.op = "buy"))  fl == r.fills IN
      /\ Len(fl) <= Len(nz)
      /\ \A k \in DOMAIN fl : /\ fl[k].p = nz[k].p
                              /\ (k < Len(fl) => fl[k].a = nz[k].s)
@@ -277,9 +283,9 @@ Act_C15_CostAndFee(st, ev, r) ==
      /\ r.fee = R6(QMin(QMul(QOf(3, 10000), amt), QMul(QOf(1, 8), prem)))
      /\ r.st.cash = IF ev.op = "buy" THEN QSub(st.cash, QAdd(prem, r.fee)) ELSE QAdd(st.cash, QSub(prem, r.fee))
 Act_C15_LimitOnlyThatLevel(st, ev, r) ==
-  (IsTrade(ev) /\ ev.mode = "lim") =>
-     /\ r.out = "ok" => Len(r.fills) = 1 /\ NearPrice(r.fills[1].p, ev.px)
-     /\ LET el == Eligible(SideOf(st, ev), st.book[ev.i].mark, ev, ev.op = "buy")  amt == RoundStep(ev.amt) IN
+  (IsTrade(ev) /\ IsLim(ev)) =>
+     /\ r.out = "ok" => Len(r.fills) = 1 /\ NearPrice(r.fills[1].p, LimTok(ev, st.book[ev.i].und))
+     /\ LET el == Eligible(SideOf(st, ev), st.book[ev.i].mark, st.book[ev.i].und, ev, ev.op = "buy")  amt == RoundStep(ev.amt) IN
         (  st.open /\ st.book[ev.i].listed /\ st.book[ev.i].live /\ QGe(ev.amt, MinAmount) /\ el # <<>> /\ QLe(amt, el[1].s)
          /\ (ev.op = "buy" => QLe(QAdd(QMul(el[1].p, amt), TradeFee(amt, QMul(el[1].p, amt))), st.cash))
          /\ (ev.op = "sell" => QLe(amt, Held(st, ev.i))) ) => r.out = "ok"
